@@ -486,7 +486,8 @@ ATTR_SETS = [
 _cookie_text = st.one_of(_text, st.tuples(_text, st.sampled_from(COMPAT), _text).map("".join))
 _cookie = st.fixed_dictionaries(
     {
-        "name": st.one_of(st.sampled_from(["sid", "a", "k.1", "a;b", "a=b", "a\r\nSet-Cookie: x", "a b", "é", "", "__Secure-sid", "__Host-sid", "Secure", '"a;b"']), _cookie_text),
+        "name": st.one_of(st.sampled_from(["sid", "a", "k.1", "a;b", "a=b", "a\r\nSet-Cookie: x", "a b", "é", "", "__Secure-sid", "__Host-sid", "Secure", '"a;b"']), _cookie_text,
+                          st.tuples(st.sampled_from(["__Secure-", "__Host-", "__Host-sid", "$", "Path", "Domain", "Secure"]), _cookie_text).map("".join)),
         "value": st.one_of(_cookie_text, st.sampled_from(["v", "; Secure", "x; Domain=evil.example", "a\r\nSet-Cookie: evil=1", 'q"; HttpOnly', "a,b", "\x00"])),
         "delete": st.sampled_from([False, False, False, True]),
         "attrs": st.one_of(st.none(), st.none(), st.sampled_from(ATTR_SETS)),
@@ -744,6 +745,15 @@ def cookiex_cases():
             "ops": [],
             "cookies": [{"name": "first", "value": "1", "delete": False}, {"name": h, "value": h, "delete": False, "attrs": ATTR_SETS[2]}, {"name": "last", "value": "2", "delete": True}],
         }
+    # hostile text behind (and in front of) a name stem that an implementation may treat specially: the cookie-prefix names, attribute names, $-names
+    for stem in COOKIE_NAMES + ["__Http-", "__Host-Http-", "__HOST-", "__Secure-__Host-"]:
+        for h in COOKIE_HOSTILE:
+            if not h:
+                continue
+            for name in (stem + h, h + stem):
+                yield {"response": "empty", "ops": [], "cookies": [{"name": name, "value": "v", "delete": False}]}
+            yield {"response": "empty", "ops": [], "cookies": [{"name": stem + h, "value": h, "delete": True, "attrs": ATTR_SETS[-1]}]}
+            yield {"response": "empty", "ops": [], "cookies": [{"name": "sid", "value": stem + h, "delete": False}]}
     # a NAME that already looks like a quoted string, with every code point inside
     for cp in range(256):
         for name in ('"a' + chr(cp) + 'b"', '"' + chr(cp) + '"'):
